@@ -112,7 +112,7 @@ class StubGenerator:
             else:
                 v = self._one_index(n, exclude=out if not replace else ())
             out.append(int(v))
-        self.log.append(('choice', n, size, pc, list(out)))
+        self.log.append(('choice', n, size, pc, list(out), bool(replace)))
         vals = [pool[i] for i in out] if pool is not None else out
         if shape is None:
             return vals[0]
